@@ -76,6 +76,52 @@ theorem C10_header_lines_safe (cfg : Cfg) (meth url : Str) (hs : List (Str × St
   obtain ⟨hd, hh, rfl⟩ := hl
   exact goodLine_hdr hd ((prepare_legal h).2 hd hh)
 
+/-- Automatic headers: the buffered header list is
+`Host? ++ Accept-Encoding? ++ framing? ++ User-Agent? ++ caller's lines` (the caller's lines are exactly
+those not carrying `SKIP_HEADER`, names and values verbatim), where each automatic header is present
+iff the caller's header names (lower-cased; a `SKIP_HEADER` entry counts) do not contain it, and the
+framing part is empty, or `Transfer-Encoding: chunked` (only if the caller has no Transfer-Encoding),
+or `Content-Length: n` (only if the caller has neither framing header and chunking was not requested) -/
+theorem C10_auto_headers (cfg : Cfg) (meth url : Str) (headers : List (Str × Str)) (body : Body) (ch : Bool)
+    (p : Prepared) (h : prepare cfg meth url headers body ch = .ok p) :
+    ∃ hostL aeL frL uaL,
+      p.hdrs = hostL ++ aeL ++ frL ++ uaL ++ callerHdrs headers ∧
+      (if (headerKeys headers).contains (lit "host") then hostL = [] else ∃ v, hostL = [(lit "Host", v)]) ∧
+      (if (headerKeys headers).contains (lit "accept-encoding") then aeL = []
+       else aeL = [(lit "Accept-Encoding", lit "identity")]) ∧
+      (if (headerKeys headers).contains (lit "user-agent") then uaL = []
+       else uaL = [(lit "User-Agent", Gen.defaultUserAgent)]) ∧
+      (frL = [] ∨
+       (frL = [(lit "Transfer-Encoding", lit "chunked")] ∧ (headerKeys headers).contains (lit "transfer-encoding") = false) ∨
+       (∃ n, frL = [(lit "Content-Length", toDec n)] ∧ (headerKeys headers).contains (lit "content-length") = false ∧
+          (headerKeys headers).contains (lit "transfer-encoding") = false ∧ ch = false)) :=
+  prepare_hdrs h
+
+example : (serialize c10cfg (lit "GET") (lit "/") [(lit "HOST", lit "x"), (lit "User-Agent", Gen.skipHeader)] .none false).toOption
+    = some (lit "GET / HTTP/1.1\r\nAccept-Encoding: identity\r\nHOST: x\r\n\r\n") := by decide
+
+/-- After `urlopen`'s re-encoding (`_encode_target`) the target consists of visible ASCII other than
+`#` only: no byte ≤ 0x20, no 0x7F, nothing ≥ 0x80, no `#` — for every string of code points. -/
+theorem C10_target_clean (t s : Str) (hv : ∀ c ∈ t, c < 0x110000) (h : encodeTarget t = .ok s) :
+    ∀ c ∈ s, 0x20 < c ∧ c < 0x7f ∧ c ≠ 35 :=
+  encodeTarget_clean t s hv h
+
+example : encodeTarget (lit "/a b\r\n?x y#frag") = .ok (lit "/a%20b%0D%0A?x%20y") := by decide
+
+/-- … and so is the target of every request `HTTPConnectionPool.urlopen` writes for an origin-form URL -/
+theorem C10_pool_target_clean (cfg : Cfg) (meth t : Str) (hs : List (Str × Str)) (body : Body) (ch : Bool) (w : Bytes)
+    (hm : meth ≠ []) (hv : ∀ c ∈ t, c < 0x110000) (h : poolSerialize cfg meth t hs body ch = .ok w) :
+    ∃ r, strictParse w = some r ∧ r.method = meth ∧ ∀ c ∈ r.target, 0x20 < c ∧ c < 0x7f ∧ c ≠ 35 := by
+  unfold poolSerialize at h
+  obtain ⟨t', ht, h⟩ := bind_ok h
+  obtain ⟨p, _, hp⟩ := C10_one_request_partial cfg meth t' hs body ch w hm h
+  refine ⟨_, hp, rfl, ?_⟩
+  intro c hc
+  simp only [urlOrSlash] at hc
+  split at hc
+  · simp at hc; subst hc; decide
+  · exact encodeTarget_clean t t' hv ht c hc
+
 /-
 Full statement: an accepted HTTP/2 field name consists of lower-case RFC 9113 token characters only
 and an accepted value has no NUL / CR / LF and no white space at its edges.  The name half does NOT
